@@ -22,7 +22,7 @@ ACTIVE: list[int] = []
 PROPS = [(40, "fixed", 4), (60, "fixed", 4), (40, "adaptive", 8), (40, "fixed", 8)]
 TOLS = [1e-10, 1e-6]
 ATTEMPTS = [50, 1]
-READS = ["period", "initial_state", "energy", "monodromy", "stability_indices", "eigenvalues", "is_stable", "jacobi", "amplitude"]
+READS = ["period", "initial_state", "energy", "monodromy", "stability_indices", "eigenvalues", "is_stable", "jacobi", "amplitude", "corr_tol"]
 
 # the alphabet: fully specified operations; index 0 of every choice is STOP
 ALPHABET = (
@@ -32,15 +32,15 @@ ALPHABET = (
     + [("read", r) for r in READS]
     + [("propagate", i) for i in range(len(PROPS))]
     + [("trajectory",), ("bad_period",), ("set_amp", 0), ("save_load",), ("load_inplace",), ("save_fault", "enospc"), ("save_fault", "eio"),
-       ("save_torn_load",)]
+       ("save_torn_load",), ("generate", 0), ("generate", 1)]
 )
 WEIGHTS = {"set_period": 1.2, "correct": 1.0, "set_opts": 0.5, "correct_default": 1.0, "read": 1.0, "propagate": 1.0, "trajectory": 3.0,
-           "bad_period": 1.0, "set_amp": 0.7, "save_load": 0.25, "load_inplace": 0.15, "save_fault": 0.5, "save_torn_load": 0.3}
+           "bad_period": 1.0, "set_amp": 0.7, "save_load": 0.25, "load_inplace": 0.15, "save_fault": 0.5, "save_torn_load": 0.3, "generate": 0.35}
 REDUCED = [("set_period", "x1.1"), ("set_period", "none"), ("correct", 0, 0), ("correct", 1, 1), ("set_opts", 1), ("correct_default",),
            ("read", "period"), ("read", "monodromy"), ("read", "stability_indices"), ("propagate", 0), ("propagate", 1), ("trajectory",),
            ("bad_period",), ("save_fault", "enospc")]
 MUTATORS = {"set_period", "correct", "set_opts", "correct_default", "set_amp", "save_load", "load_inplace"}
-INTEGRATING = {"correct", "correct_default", "propagate"}
+INTEGRATING = {"correct", "correct_default", "propagate", "generate"}
 INTEGRATING_READS = {"monodromy", "stability_indices", "eigenvalues", "is_stable"}
 
 
@@ -125,6 +125,8 @@ def sorted_c(v):
 def read(o, name):
     if name == "jacobi":
         return o.jacobi
+    if name == "corr_tol":
+        return float(o.correction_options.base.convergence.tol)
     v = getattr(o, name)
     if name in ("stability_indices", "eigenvalues"):
         return sorted_c(v)
@@ -154,6 +156,15 @@ def apply(o, op, model):
     if k == "set_opts":
         o.correction_options = _merge_opts(o, TOLS[op[1]], ATTEMPTS[0])
         return None
+    if k == "generate":
+        from hiten.algorithms.continuation.options import OrbitContinuationOptions
+        idx = int(o.continuation_config.state_indices[0])
+        z = float(o.initial_state[idx])
+        step = [0.002, -0.001][op[1]]
+        extra = o.correction_options.merge(**{"base.convergence.max_attempts": 12})
+        res = o.generate(OrbitContinuationOptions(target=([z - 1.0], [z + 1.0]), step=(step,), max_members=3, max_retries_per_step=1, extra_params=extra))
+        return {"n": len(res.family), "states": [np.array(m.initial_state, float) for m in res.family], "periods": [m.period for m in res.family],
+                "accepted": int(res.accepted_count), "rejected": int(res.rejected_count)}
     if k == "set_amp":
         o.amplitude = [0.123][op[1]]
         return None
@@ -367,6 +378,17 @@ def step(ctx, U, ob, j, op, hist):
     if r_out.failed:
         ctx.probe("failed_op_then_continue")
         ctx.fault("op_failed_" + type(r_out.exc).__name__)
+    elif not eq(r_out.value, t_out.value) and (k == "correct_default" or op == ("read", "corr_tol")) and ob["reloaded"] and model["opts"] is not None \
+            and known_active("C20-K3-user-set-correction-options-lost-by-save-load"):
+        # K3: exactly what a fresh orbit WITHOUT the user-set options computes
+        m2 = dict(model, opts=None)
+        alt_out, alt_rb = twin_memo(("orbit-op", m2["spec"], m2["x"], m2["T"], m2["amp"], None, op), lambda: _twin_apply(m2, op, U))
+        if not alt_out.failed and eq(r_out.value, alt_out.value):
+            ctx.note_known("C20-K3-user-set-correction-options-lost-by-save-load")
+            model["opts"] = None
+            t_rb = alt_rb
+        else:
+            raise Violation(f"C20/orbit/value-{k}", f"{op} returned {_first_diff(r_out.value, t_out.value)} | history: {hist}")
     elif not eq(r_out.value, t_out.value):
         what = k + ("-" + str(op[1]) if k == "read" else "")
         detail = _first_diff(r_out.value, t_out.value)
